@@ -2,12 +2,17 @@
 
 Oracle: specs/LoadBalance.tla (contract).  specs/LoadBalanceImpl.tla is the implementation-shaped
 layer whose refinement of the contract TLC checks.  The real code is bound by
-  * MBT: TLC -simulate behaviours of the contract (configuration, discovery reports, keyed requests)
-         replayed through the real Proxy filter with the transport stubbed; the recorded observations
-         are validated by TLC against the contract (LoadBalance_Trace);
-  * TV : seeded random pools / request sequences, same validation;
-  * CTV: concurrent selectors + concurrent list replacement, inv/ret events, linearisation search by TLC
-         (LoadBalance_CTrace); -race in the thorough tier.
+  * MBT: TLC -simulate behaviours of the contract (configuration, discovery reports, keyed requests,
+         requests held between the load of the pool's balancer and the choice while the list is replaced,
+         round robin balancers that have served 2^b - d selections before) replayed through the real Proxy
+         filter with the transport stubbed; the recorded observations are validated by TLC against the
+         contract (LoadBalance_Trace);
+  * TV : seeded random pools / request sequences (same ingredients), same validation;
+  * CTV: concurrent selectors + concurrent list replacement (some selectors load the balancer before and
+         choose after the replacement), inv/ret events, linearisation search by TLC (LoadBalance_CTrace);
+         -race in the thorough tier;
+  * stress: bursts of concurrent selections, tallied (also on balancers with earlier selections, so that
+         the burst crosses a power of two).
 """
 import re
 
@@ -15,20 +20,27 @@ from lib.vlib import jdump
 
 PKG = "pkg/filters/proxy"
 
-INVS = "INVARIANTS TypeOK RRFair Member NilIffEmpty NoZeroWeight\n"
+INVS = "INVARIANTS TypeOK RRFair Member NilIffEmpty NoZeroWeight HeldOK\n"
 PROPS = INVS + "PROPERTIES Sticky StickyPick\n"
 
 
-def contract_cfg(configs, insts, procs, keys, maxsel, maxgen):
-    return ("SPECIFICATION GSpec\nCONSTANTS\n  Configs <- %s\n  InstSets <- %s\n  Procs = {%s}\n  Keys = {%s}\n"
-            "  MaxSel = %d\n  MaxGen = %d\nVIEW view\n" % (configs, insts, _strs(procs), _strs(keys), maxsel, maxgen)
+# exhaustive runs: balancers that have served 2^b - d = 3, 7 selections before (small numbers: the model's counter is exact)
+MC_AGE = "  AgeBits = {2, 3}\n  AgeD = {1}\n"
+
+
+NO_AGE = "  AgeBits = {}\n  AgeD = {}\n"
+
+
+def contract_cfg(configs, insts, procs, keys, maxsel, maxgen, spec="GSpec", age=NO_AGE):
+    return ("SPECIFICATION %s\nCONSTANTS\n  Configs <- %s\n  InstSets <- %s\n  Procs = {%s}\n  Keys = {%s}\n"
+            "  MaxSel = %d\n  MaxGen = %d\n%sVIEW view\n" % (spec, configs, insts, _strs(procs), _strs(keys), maxsel, maxgen, age)
             ) + PROPS + "PROPERTIES ReplaceRule\n"
 
 
-def impl_cfg(configs, insts, procs, keys, maxsel, maxgen, atomic=True, fixed=True, hrange=2):
+def impl_cfg(configs, insts, procs, keys, maxsel, maxgen, atomic=True, fixed=True, hrange=2, ctrbits=0, age=NO_AGE):
     return ("SPECIFICATION ISpec\nCONSTANTS\n  Configs <- %s\n  InstSets <- %s\n  Procs = {%s}\n  Keys = {%s}\n"
-            "  MaxSel = %d\n  MaxGen = %d\n  AtomicRR = %s\n  FixedWR = %s\n  HashRange = %d\nVIEW iview\n"
-            % (configs, insts, _strs(procs), _strs(keys), maxsel, maxgen, str(atomic).upper(), str(fixed).upper(), hrange)
+            "  MaxSel = %d\n  MaxGen = %d\n  AtomicRR = %s\n  FixedWR = %s\n  HashRange = %d\n  CtrBits = %d\n%sVIEW iview\n"
+            % (configs, insts, _strs(procs), _strs(keys), maxsel, maxgen, str(atomic).upper(), str(fixed).upper(), hrange, ctrbits, age)
             ) + INVS.strip() + " NoPanic ObjIsList\nPROPERTIES Refines Sticky StickyPick\n"
 
 
@@ -36,15 +48,26 @@ def _strs(xs):
     return ", ".join('"%s"' % x for x in xs)
 
 
-SIM_CFG = ("SPECIFICATION GSeqSpec\nCONSTANTS\n  Configs <- GenConfigs\n  InstSets <- GenInstSets\n  Procs = {\"g0\"}\n"
-           "  Keys = {\"k0\", \"k1\", \"k2\"}\n  MaxSel = 14\n  MaxGen = 4\n")
+# numbers of earlier selections 2^b - d around the widths a counter may be narrowed to or converted through
+AGE_BITS = [8, 16, 31, 32, 33, 48, 62]
+SIM_CFG = ("SPECIFICATION GSeqSpec\nCONSTANTS\n  Configs <- GenConfigs\n  InstSets <- GenInstSets\n  Procs = {\"g0\", \"g1\"}\n"
+           "  Keys = {\"k0\", \"k1\", \"k2\"}\n  MaxSel = 14\n  MaxGen = 4\n  AgeBits = {%s}\n  AgeD = {1, 2, 3}\n"
+           % ", ".join(map(str, AGE_BITS)))
 
 TRACE_CFG = ("SPECIFICATION TSpec\nCONSTANTS\n  Configs = {}\n  InstSets = {}\n"
              "  Procs = {\"g0\", \"g1\", \"g2\", \"g3\", \"g4\", \"g5\", \"g6\", \"g7\"}\n  Keys = {\"k0\", \"k1\", \"k2\", \"k3\"}\n"
-             "  MaxSel = 100000000\n  MaxGen = 100000000\nCONSTRAINT HWM\nPOSTCONDITION TraceAccepted\n") + PROPS
+             "  MaxSel = 100000000\n  MaxGen = 100000000\n  AgeBits = {}\n  AgeD = {}\nCONSTRAINT HWM\nPOSTCONDITION TraceAccepted\n") + PROPS
 
 
 def run(ctx):
+    _run(ctx)
+    if not ctx.quick and ctx.phase("apalache"):
+        # extra: unbounded (in the number of selections) inductive fairness invariant, Apalache; notes only
+        from props import _c04apalache
+        _c04apalache.run(ctx)
+
+
+def _run(ctx):
     ctx.cov["rule"] = ("behaviours = TLC -simulate runs of the LoadBalance contract (pool configuration, discovery reports, keyed "
                        "requests) replayed through the real Proxy filter with a recording transport, observations validated by TLC; "
                        "traces = seeded random sequential request sequences and concurrent selector/watcher runs of the real pool "
@@ -53,7 +76,12 @@ def run(ctx):
                        "a positive/zero weight mix, more selections than servers")
     ctx.assumptions += ["service discovery is played by the harness calling ServerPool.useService, as the pool's watcher goroutine does",
                         "discovered weights are non-negative",
-                        "a hash policy's stickiness is required within one generation of the list (a discovery report starts a new one)"]
+                        "a hash policy's stickiness is required within one generation of the list (a discovery report starts a new one)",
+                        "'after any number k of selections' is exercised for k < 2^63 (k0 = 2^b - d earlier selections, b <= 62): a "
+                        "round robin balancer after k0 selections is obtained by advancing its only integer field (the selection "
+                        "counter, whatever its width) by k0 in that field's own arithmetic",
+                        "a request that loaded the pool's balancer before a replacement and chooses after it must get a server of a "
+                        "list that was current at some instant in between (and none only if such a list is empty)"]
     # the exhaustive TLC runs (JVMs) go on in the background while the real code is exercised
     from concurrent.futures import ThreadPoolExecutor
     with ThreadPoolExecutor(max_workers=1) as ex:
@@ -79,11 +107,22 @@ def _mc(ctx):
     g2, g3 = ["g0", "g1"], ["g0", "g1", "g2"]
     w = 4 if q else 8
     jobs = {}
-    with ThreadPoolExecutor(max_workers=6) as ex:
+    with ThreadPoolExecutor(max_workers=8) as ex:
         # contract: the property's clauses are theorems of it, for all interleavings of callers and replacements
         jobs["contract"] = ex.submit(
             ctx.tlc_mc, "LoadBalance_Gen", contract_cfg("McConfigs", "McInstSets", g2, ["k0", "k1"], 3 if q else 5, 2),
             label="contract, 2 callers, %d selections" % (3 if q else 5), timeout=1500, workers=w)
+        # ... and for requests held between the load of the balancer and the choice, across replacements
+        jobs["held"] = ex.submit(
+            ctx.tlc_mc, "LoadBalance_Gen", contract_cfg("McConfigs", "McInstSets", g2, ["k0", "k1"], 3, 2 if q else 3, spec="GSeqSpec"),
+            label="contract, held requests across replacements", timeout=1500, workers=w)
+        # ... and for round robin balancers that have served selections before (the counts stay fair from there on)
+        jobs["aged"] = ex.submit(
+            ctx.tlc_mc, "LoadBalance_Gen", contract_cfg("McRRConfigs", "McInstSets", g2, ["k0"], 3 if q else 4, 2, age=MC_AGE),
+            label="contract, round robin balancers with earlier selections", timeout=1500, workers=w)
+        jobs["aged-impl"] = ex.submit(
+            ctx.tlc_mc, "LoadBalanceImpl_MC", impl_cfg("RROnlyConfigs", "McInstSets", g2, ["k0"], 3 if q else 4, 2, age=MC_AGE),
+            label="implementation layer refines contract, round robin counters with earlier selections", timeout=1500, workers=w)
         # implementation-shaped layer refines the contract
         runs = [("RRConfigs", "McInstSets", g2, ["k0"], 4 if q else 5, 2 if q else 3, 2),
                 ("WRConfigs", "McInstSets", g2, ["k0"], 3 if q else 4, 2, 2),
@@ -99,6 +138,8 @@ def _mc(ctx):
         jobs["pinned-wr"] = ex.submit(ctx.tlc_mc, "LoadBalanceImpl_MC", impl_cfg("WRConfigs", "McInstSets", g2, ["k0"], 3, 2, fixed=False),
                                       label="negative control: weightedRandom without the zero-total-weight guard", expect_ok=False,
                                       count=False, workers=2)
+        jobs["neg-wrap"] = ex.submit(ctx.tlc_mc, "LoadBalanceImpl_MC", impl_cfg("RROnlyConfigs", "McInstSets", g2, ["k0"], 3, 2, ctrbits=3, age=MC_AGE),
+                                     label="negative control: 3-bit round robin counter that wraps", expect_ok=False, count=False, workers=2)
         res = {k: f.result() for k, f in jobs.items()}
     for k in sorted(res):
         if res[k].ok:
@@ -106,6 +147,9 @@ def _mc(ctx):
     r = res["neg-rr"]
     if r.violated not in ("RRFair", "Refines"):
         ctx.inconclusive("negative control (non-atomic round robin counter) was not rejected by TLC: %s" % r.error)
+    r = res["neg-wrap"]
+    if r.violated not in ("RRFair", "Refines"):
+        ctx.inconclusive("negative control (round robin counter that wraps) was not rejected by TLC: %s" % r.error)
     r = res["pinned-wr"]
     if r.violated not in ("NoPanic", "Refines"):
         ctx.inconclusive("negative control (weightedRandom without the zero-total-weight guard) was not rejected by TLC: %s" % r.error)
@@ -168,6 +212,14 @@ def _sig(seg, idx, kind):
         totw = sum(x["w"] for x in cur)
         return {"kind": kind, "policy": seg[0]["cfg"]["policy"], "obs": obs, "n": min(len(cur), 3),
                 "totw": 0 if totw == 0 else 1, "zero": any(x["w"] == 0 for x in cur) and totw > 0}
+    if e.get("ev") == "hpick":
+        # a held request: the lists that were current between its load of the balancer and its choice
+        hold = max(j for j in range(idx) if seg[j].get("ev") == "hold" and seg[j].get("p") == e.get("p"))
+        span = [_lists(seg, j) for j in range(hold, idx + 1) if j == hold or seg[j].get("ev") == "rep"]
+        r = e.get("r")
+        obs = r if r in ("panic", "nil") else ("member" if any(r in {x["id"] for x in l} for l in span) else "non-member")
+        return {"kind": kind, "policy": seg[0]["cfg"]["policy"], "obs": obs, "held": True, "replaced": len(span) > 1,
+                "empty": any(not l for l in span)}
     if kind == "conc":
         # the list current at the call is only known up to the replacements overlapping it: prefer a
         # candidate with total weight 0 (the shape that matters for describing a panic)
@@ -176,6 +228,9 @@ def _sig(seg, idx, kind):
         cur = zero[0] if zero else cands[-1]
     r = e.get("r")
     ids = {x["id"] for x in cur}
+    aged = [x for x in seg[:idx] if x.get("ev") in ("age", "rep")]
+    if aged and aged[-1]["ev"] == "age" and r in ids:
+        return {"kind": kind, "policy": seg[0]["cfg"]["policy"], "obs": "member-unfair", "aged": aged[-1]["b"], "n": min(len(cur), 3)}
     if r in ("panic", "nil"):
         obs = r
     elif isinstance(r, str) and r.startswith("unexpected"):
@@ -202,6 +257,27 @@ def _nontrivial(ctx, seg):
         ctx.nontrivial({"cfg": seg[0]["cfg"], "ev": [(e.get("ev"), e.get("k"), jdump(e.get("insts"))) for e in seg[1:]]})
 
 
+def _schedules(segs):
+    """how many of the two schedule classes the recorded traces contain: requests held across a replacement
+    between two non-empty lists, and round robin selections that cross a power of two on an aged balancer"""
+    held = crossed = 0
+    for _st, seg in segs:
+        for i, e in enumerate(seg):
+            if e.get("ev") == "hpick":
+                h = max(j for j in range(i) if seg[j].get("ev") == "hold" and seg[j].get("p") == e.get("p"))
+                reps = [j for j in range(h, i) if seg[j].get("ev") == "rep"]
+                if reps and _lists(seg, h) and _lists(seg, reps[-1]):
+                    held += 1
+            if e.get("ev") == "age":
+                j, m = i + 1, 0
+                while j < len(seg) and seg[j].get("ev") in ("ch", "batch"):
+                    m += seg[j].get("n", 1)
+                    j += 1
+                if m > e["d"] and len(_lists(seg, i)) >= 2:
+                    crossed += 1
+    return held, crossed
+
+
 def _validate_seq(ctx, tp, ev, kind, what):
     """one TLC run over the concatenated sequential traces; the trace spec reports every rejected trace"""
     tr = ctx.tlc_trace("LoadBalance_Trace", TRACE_CFG, tp)
@@ -221,8 +297,12 @@ def _validate_seq(ctx, tp, ev, kind, what):
         idx = ln - 1 - st
         bad.add(st)
         e = seg[idx]
-        seen = ("tally %s of %d concurrent selections" % (jdump(e["picks"])[:400], e.get("n", 0)) if e.get("ev") == "batch"
-                else "request with key %s observed %r" % (e.get("k"), e.get("r")))
+        aged = [x for x in seg[:idx] if x.get("ev") in ("age", "rep")]
+        after = (" (balancer that had served %s selections before)" % aged[-1]["k0"]) if aged and aged[-1]["ev"] == "age" else ""
+        seen = ("tally %s of %d concurrent selections%s" % (jdump(e["picks"])[:400], e.get("n", 0), after) if e.get("ev") == "batch"
+                else "request %s, held between the load of the balancer and its choice, observed %r" % (e.get("p"), e.get("r"))
+                if e.get("ev") == "hpick"
+                else "request with key %s observed %r%s" % (e.get("k"), e.get("r"), after))
         ctx.violation(_sig(seg, idx, kind),
                       "%s: %s, which the contract does not allow for policy %s with current list %s"
                       % (what, seen, seg[0]["cfg"]["policy"], jdump(_lists(seg, idx))), seg[:idx + 1])
@@ -248,6 +328,21 @@ def _check_rejected(ctx, ev, what):
         ctx.inconclusive("%s: the Proxy spec rejected a configuration the model considers accepted: %s" % (what, jdump(rej[0])))
 
 
+def _vacuity(ctx, ev, held, crossed, what):
+    ctx.cov.setdefault("c04_schedules", {})[what] = {"held_across_replacement": held, "aged_crossing_power_of_two": crossed}
+    if ctx.violations:
+        return
+    if held == 0:
+        ctx.inconclusive("%s: no request was held across a replacement of a non-empty list by a non-empty list" % what)
+    if any(e.get("ev") == "noage" and e.get("why") == "nocounter" for e in ev):
+        note = ("the round robin balancer keeps no single integer field that counts its selections: balancers with earlier "
+                "selections were not produced")
+        if note not in ctx.notes:
+            ctx.notes.append(note)
+    elif crossed == 0:
+        ctx.inconclusive("%s: no round robin balancer with earlier selections crossed a power of two" % what)
+
+
 def _mbt(ctx):
     nb = 400 if ctx.quick else 4000
     behs = ctx.tlc_simulate("LoadBalance_Gen", SIM_CFG, num=nb, depth=14)
@@ -260,7 +355,10 @@ def _mbt(ctx):
     _check_rejected(ctx, ev, "replay")
     ctx.evals(len(behs))
     ok, bad = _validate_seq(ctx, tp, ev, "replay", "replay of a TLC-generated behaviour on the real Proxy")
-    ctx.log("replay: %d behaviours validated, %d rejected" % (ok, bad))
+    held, crossed = _schedules(_segments(ev))
+    ctx.log("replay: %d behaviours validated, %d rejected (%d requests held across a replacement, %d aged balancers)"
+            % (ok, bad, held, crossed))
+    _vacuity(ctx, ev, held, crossed, "replay")
     ctx.sample({"kind": "tlc-behaviour replayed", "events": ev[:6]})
 
 
@@ -274,7 +372,10 @@ def _tv(ctx):
     _check_rejected(ctx, ev, "random pools")
     ctx.evals(n)
     ok, bad = _validate_seq(ctx, tp, ev, "trace", "random request sequence through the real Proxy")
-    ctx.log("random traces: %d validated, %d rejected" % (ok, bad))
+    held, crossed = _schedules(_segments(ev))
+    ctx.log("random traces: %d validated, %d rejected (%d requests held across a replacement, %d aged balancers)"
+            % (ok, bad, held, crossed))
+    _vacuity(ctx, ev, held, crossed, "random traces")
     ctx.sample({"kind": "recorded-trace", "events": ev[:6]})
 
 
@@ -307,6 +408,10 @@ def _ctv(ctx):
         ctx.inconclusive("C04 concurrent harness failed:\n" + out[-3000:])
     _check_rejected(ctx, ev, "concurrent pools")
     ctx.evals(n)
+    nheld = sum(1 for e in ev if e.get("ev") == "inv" and e.get("held"))
+    ctx.cov.setdefault("c04_schedules", {})["concurrent"] = {"held_across_replacement": nheld}
+    if nheld == 0:
+        ctx.inconclusive("concurrent pools: no selection was held between the load of the balancer and the choice across a replacement")
     segs = _segments(ev)
     nseg = len(segs)
     # rejected traces other than panics stop the search: report, remove the trace, search the rest
@@ -327,7 +432,8 @@ def _ctv(ctx):
             for _st, seg in good:
                 _nontrivial(ctx, seg)
             ctx.sample({"kind": "concurrent-trace", "events": good[0][1][:10] if good else []})
-            ctx.log("concurrent traces: %d linearised, %d rejected" % (len(good), nseg - len(good)))
+            ctx.log("concurrent traces: %d linearised, %d rejected (%d selections held across a replacement)"
+                    % (len(good), nseg - len(good), nheld))
             return
         st, seg = _seg_at(segs, tr.hwm)
         e = seg[min(tr.hwm - st, len(seg) - 1)]
